@@ -206,9 +206,42 @@ void layer_b(Ctx& c) {
         }
     };
 
+    // a second node that publishes newer versions of the same ids: its replicas reach `node` through receive_chunk,
+    // the other code path by which a chunk is (over)written
+    std::unique_ptr<Node> publisher;
     for (std::size_t i = 0; i < t.nrec(); ++i) {
         Rec r = t.r(i);
         int k = r.a(0) % 3;
+        if (r.op() % 16 == 8) {
+            if (!publisher) { Config pc = cfg; pc.identity_seed = 43; publisher = std::make_unique<Node>(vnode::make_id(3, 0xCC), pc); }
+            long long ttl = std::max<long long>(kTtlTable[r.a(1) % 8], 2);
+            auto bytes = Prng(r.seed() ^ 0x5E9).bytes(r.a(2) % 200);
+            seconds eff = std::min(std::max(seconds(ttl), min_ttl), max_ttl);
+            auto m = publisher->store_chunk(cid(k), bytes, seconds(ttl));
+            auto prec = publisher->export_chunk_record(cid(k));
+            if (!prec) c.fail("C01:harness-error", "publisher lost its own chunk");
+            const std::string uri = protocol::encode_manifest(m);
+            c.note("|replica(c%d,%zuB,ttl=%lld)", k, bytes.size(), ttl);
+            auto got = node.receive_chunk(uri, prec->data);
+            if (!got.has_value()) { c.label("replica_refused"); check_listing(); continue; }   // (a remaining lifetime below the minimum is refused: not judged here)
+            if (*got != bytes) c.fail("C01:wrong-bytes", "receive_chunk returned bytes different from the replica's content");
+            auto rec = node.export_chunk_record(cid(k));
+            if (!rec.has_value()) c.fail("C01:live-chunk-not-served", "export_chunk_record right after an accepted replica returned nothing");
+            // the replica's lifetime is the manifest's remaining lifetime in whole seconds (the URI carries whole seconds and
+            // the remainder is truncated once more: less than two seconds are lost in all)
+            if (rec->expires_at > now() + eff || rec->expires_at <= now() + eff - seconds(2))
+                c.fail("C01:wrong-deadline", "an accepted replica of c" + std::to_string(k) + " did not replace the deadline (expected the manifest's remaining lifetime, " + std::to_string(eff.count()) + " s minus less than two seconds)");
+            MEntry e;
+            e.deadline = rec->expires_at;
+            if (model.count(k)) { e.overwritten = true; e.old_deadline = model[k].deadline; c.nt("overwrite_by_replica"); }
+            e.bytes = prec->data;
+            if (rec->data != prec->data) c.fail("C01:wrong-bytes", "after an accepted replica the stored bytes are not the replica's ciphertext");
+            model[k] = e;
+            plain[k] = bytes;
+            manifest_uri[k] = uri;
+            check_listing();
+            continue;
+        }
         switch (r.op() % 8) {
             case 0: {
                 long long ttl = kTtlTable[r.a(1) % 8];
